@@ -124,7 +124,11 @@ def check_case(ctx, case):
             import tempfile as _tf
             with _tf.TemporaryDirectory(dir='/dev/shm' if os.path.isdir('/dev/shm') else None) as td_:
                 fn_ = os.path.join(td_, 'rng.txt')
-                bs_ = o.export_bootstrap(nb, save_rng=fn_)
+                try:
+                    bs_ = o.export_bootstrap(nb, save_rng=fn_)
+                except Exception as e:
+                    probs.append(('violation', 'boot-exception', 'export_bootstrap(%d, save_rng=...) of %d configurations: %s: %s' % (nb, n, type(e).__name__, str(e)[:120])))
+                    return probs
                 saved_ = np.loadtxt(fn_, dtype=int)
                 if saved_.size != nb * n:
                     probs.append(('violation', 'boot-saved-table', 'save_rng wrote %d numbers, the table has %d samples x %d configurations' % (saved_.size, nb, n)))
